@@ -157,6 +157,16 @@ theorem mh_cancelFound (st : St) (a : Nat) (w : Watch) (l : List Nat) : MH st (c
   exact ((((mh_setListOf st _ _).trans (mh_cancelNotify _ a w)).trans (mh_cancelHook _ w.type w.evi)).trans (mh_free _ a)).trans
     (mh_cancelRest _ _)
 
+theorem mh_cancelDetached (st : St) (a : Nat) : MH st (cancelDetached st a) := by
+  unfold cancelDetached
+  exact (mh_cancelNotify st a _).trans (mh_setW _ a _ rfl rfl (Or.inr rfl) (fun h => h))
+
+theorem mh_laterPre (st : St) (a : Nat) : MH st (laterPre st a) := by
+  unfold laterPre
+  split
+  · exact (mh_setW _ a _ rfl rfl (Or.inl rfl) (fun h => h))
+  · exact MH.refl _
+
 theorem mh_watchCancel (st : St) (a : Nat) : MH st (watchCancel st a) := by
   unfold watchCancel
   split
@@ -168,7 +178,9 @@ theorem mh_watchCancel (st : St) (a : Nat) : MH st (watchCancel st a) := by
       · split
         · exact (mh_fail st _)
         · split
-          · exact MH.refl st
+          · split
+            · exact mh_cancelDetached st a
+            · exact MH.refl st
           · exact mh_cancelFound st a _ _
 
 
@@ -376,10 +388,12 @@ theorem mh_laterLoopT (l : List Nat) : ∀ st : St, MH st (laterLoopT st l).1 :=
     · split
       · exact (mh_fail _ _)
       · split
-        · exact mh_laterCb _ _
+        · exact (mh_free _ a).trans (ih _)
         · split
-          · exact (mh_laterCb _ _).trans (mh_fail _ _)
-          · exact ((mh_laterCb _ _).trans (mh_free _ a)).trans (ih _)
+          · exact ((mh_laterPre st a).trans (mh_laterCb _ a))
+          · split
+            · exact (((mh_laterPre st a).trans (mh_laterCb _ a))).trans (mh_fail _ _)
+            · exact ((((mh_laterPre st a).trans (mh_laterCb _ a))).trans (mh_free _ a)).trans (ih _)
 
 
 theorem mh_laterLoop (l : List Nat) (st : St) : MH st (laterLoop st l) := mh_laterLoopT l st
